@@ -36,6 +36,7 @@ harness predicate on the final state.  The theorems need a TOTAL order: over IEE
 -/
 namespace C09
 set_option linter.unusedSectionVars false
+set_option linter.unusedSimpArgs false
 variable {K : Type} [Field K] [LinearOrder K] [IsStrictOrderedRing K]
 
 /-- `setRequiredAccuracy` always yields a positive accuracy (given a positive default) -/
@@ -202,19 +203,20 @@ theorem no_change_state {S : Type} (sqrt : K → K) (o : Opts K) (orc : OracleQ 
   unfold finalState
   rw [h1, h2]; rfl
 
-/-- **skeleton_accepted (projectQ).**  Whatever the oracle, the results the skeleton produces satisfy the contract
-that the correspondence check applies to the implementation's observed `ProjectResults`. -/
+/-- **skeleton_accepted (projectQ).**  Whatever the oracle, the results the skeleton produces satisfy the path-aware
+contract that the correspondence check applies to the implementation's observed `ProjectResults` (the exit is decided
+from the two entry norms as the code decides it; the clause of that exit must hold). -/
 theorem skeleton_accepted (sqrt : K → K) (o : Opts K) (orc : OracleQ K) (hacc : 0 ≤ o.acc) (dflt : K) :
-    acceptsQ o ((runQ sqrt o orc).obs dflt) = true := by
-  have hge := entry_normIn_ge sqrt o.useInf orc.perr0 orc.w orc.quat0
-  have hn := entry_normIn_le sqrt o.useInf orc.perr0 orc.w orc.quat0 o.acc
+    acceptsQ o orc.quat0.length (entryNormQ sqrt o.useInf orc.perr0 orc.w orc.quat0).perrIn
+      (entryNormQ sqrt o.useInf orc.perr0 orc.w orc.quat0).quatIn ((runQ sqrt o orc).obs dflt) = true := by
+  have hnI := entry_normIn sqrt o.useInf orc.perr0 orc.w orc.quat0
   have hL := newtonLoop_spec o.localOnly (maxK (o.overshoot * o.acc) o.sig)
     (fun i => norm sqrt o.useInf (scale (orc.perrIt i) orc.w))
     (fun i => norm sqrt o.useInf (scale (orc.perrBack i) orc.w)) maxItsQ 0
     (entryNormQ sqrt o.useInf orc.perr0 orc.w orc.quat0).perrIn (by decide)
   have hqz := entry_quatIn sqrt o.useInf orc.perr0 orc.w orc.quat0
-  simp only at hge hn hL
-  unfold runQ
+  simp only at hnI hL
+  unfold runQ acceptsQ
   simp only
   generalize entryNormQ sqrt o.useInf orc.perr0 orc.w orc.quat0 = e at *
   generalize newtonLoop o.localOnly (maxK (o.overshoot * o.acc) o.sig)
@@ -223,8 +225,7 @@ theorem skeleton_accepted (sqrt : K → K) (o : Opts K) (orc : OracleQ K) (hacc 
   obtain ⟨hL1, hL2, hL3⟩ := hL
   have hits1 : 1 ≤ L.its := by omega
   have hits2 : L.its ≤ maxItsQ := by omega
-  have hne : L.its ≠ 0 := by omega
-  -- entering the Newton loop means: forced, or the entry norm exceeds the accuracy
+  rw [← hnI]
   have hnewton : ¬(e.perrIn == 0 || decide (e.perrIn ≤ o.acc) && !o.force) = true → (o.force = true ∨ o.acc < e.perrIn) := by
     intro h
     simp only [Bool.or_eq_true, Bool.and_eq_true, decide_eq_true_eq, beq_iff_eq, Bool.not_eq_true', not_or, not_and] at h
@@ -234,67 +235,47 @@ theorem skeleton_accepted (sqrt : K → K) (o : Opts K) (orc : OracleQ K) (hacc 
       by_contra hc
       exact hf (by simpa using h.2 (not_lt.mp hc))
   split_ifs with h1 h2 h3 h4 h5 h6 h7 h8 h9 h10
-  · simp [acceptsQ, Results.obs, h1]
-  · -- quaternions only, failed
-    have hc : o.force = true ∨ o.acc < e.normIn := by
-      simp only [Bool.or_eq_true, decide_eq_true_eq] at h3
-      rcases h3 with h3 | h3
-      · exact Or.inr (lt_of_lt_of_le h3 hge.2)
-      · exact Or.inl h3
-    rcases hc with hc | hc <;> simp [acceptsQ, Results.obs, h1, h4, hc]
-  · have hc : o.force = true ∨ o.acc < e.normIn := by
-      simp only [Bool.or_eq_true, decide_eq_true_eq] at h3
-      rcases h3 with h3 | h3
-      · exact Or.inr (lt_of_lt_of_le h3 hge.2)
-      · exact Or.inl h3
-    rcases hc with hc | hc <;> simp [acceptsQ, Results.obs, h1, not_lt.mp h4, hc]
-  · -- nothing to do
-    simp only [Bool.or_eq_true, Bool.and_eq_true, decide_eq_true_eq, beq_iff_eq, Bool.not_eq_true', not_or, not_lt] at h2 h3
-    have hpa : e.perrIn ≤ o.acc := by
-      rcases h2 with h2 | h2
-      · rw [h2]; exact hacc
-      · exact h2.1
-    have hf : o.force = false := by simpa using h3.2
-    simp [acceptsQ, Results.obs, h1, hf, hn hpa h3.1]
+  · simp [limitOutcome, Results.obs, h1]
+  · simp [Results.obs, h1, h2, h3, h4]
+  · simp [Results.obs, h1, h2, h3, not_lt.mp h4]
+  · simp [Results.obs, h1, h2, h3]
   all_goals have hc := hnewton h2
-  all_goals have hc' : o.force = true ∨ o.acc < e.normIn := hc.imp id (fun h => lt_of_lt_of_le h hge.1)
-  · -- diverged, made worse: entry state restored
+  · -- diverged, made worse: saved state written back
     have hd : o.localOnly = true ∧ 2 ≤ L.its := by
       rcases hL3 with ⟨hd, _⟩ | ⟨_, _, _, h1, h2⟩
       · rw [h6] at hd; exact absurd hd (by simp)
       · exact ⟨h1, h2⟩
-    rcases hc with hc | hc <;> rcases hc' with hc' | hc' <;>
-      simp [acceptsQ, newtonOutcome, Results.obs, h1, hits1, hits2, hd.1, hd.2, hc, hc']
+    rcases hc with hc | hc <;>
+      simp [newtonOutcome, Results.obs, hits1, hits2, hd.1, hd.2, hc]
   · have hd : o.localOnly = true ∧ 2 ≤ L.its := by
       rcases hL3 with ⟨hd, _⟩ | ⟨_, _, _, h1, h2⟩
       · rw [h6] at hd; exact absurd hd (by simp)
       · exact ⟨h1, h2⟩
-    rcases hc' with hc' | hc' <;>
-      simp [acceptsQ, newtonOutcome, Results.obs, h1, hits1, hits2, hd.1, hd.2, h5, hc']
-  · rcases hc with hc | hc <;> rcases hc' with hc' | hc' <;>
-      simp [acceptsQ, newtonOutcome, Results.obs, h1, hits1, hits2, hc, hc']
-  · rcases hc' with hc' | hc' <;>
-      simp [acceptsQ, newtonOutcome, Results.obs, h1, hits1, hits2, h5, hc']
-  · rcases hc' with hc' | hc' <;>
-      simp [acceptsQ, newtonOutcome, Results.obs, h1, hits1, hits2, h10, hc']
+    have hlt : L.achieved < e.perrIn := by simpa using h7
+    simp [newtonOutcome, Results.obs, hits1, hits2, hd.1, hd.2, h5, le_of_lt hlt, ne_of_lt hlt]
+  · rcases hc with hc | hc <;>
+      simp [newtonOutcome, Results.obs, hits1, hits2, hc]
+  · have hlt : L.achieved < e.perrIn := by simpa using h8
+    simp [newtonOutcome, Results.obs, hits1, hits2, h5, le_of_lt hlt, ne_of_lt hlt]
+  · have hq0 : (orc.quat0.length == 0) = false := by simpa using h9
+    simp [newtonOutcome, Results.obs, hits1, hits2, h10, hq0]
   · have hm := maxK_le (not_lt.mp h5) (not_lt.mp h10)
-    rcases hc' with hc' | hc' <;>
-      simp [acceptsQ, newtonOutcome, Results.obs, h1, hits1, hits2, hm, hc']
+    simp [newtonOutcome, Results.obs, hits1, hits2, hm]
   · have hz : e.quatIn ≤ o.acc := by rw [hqz, norm_of_length_zero _ _ _ (not_not.mp h9)]; exact hacc
     have hm := maxK_le (not_lt.mp h5) hz
-    rcases hc' with hc' | hc' <;>
-      simp [acceptsQ, newtonOutcome, Results.obs, h1, hits1, hits2, hm, hc']
+    simp [newtonOutcome, Results.obs, hits1, hits2, hm]
 
 /-- **skeleton_accepted (projectU).** -/
 theorem skeleton_accepted_U (sqrt : K → K) (o : Opts K) (orc : OracleU K) (dflt : K) :
-    acceptsU o ((runU sqrt o orc).obs dflt) = true := by
+    acceptsU o (norm sqrt o.useInf (scale orc.verr0 orc.w)) ((runU sqrt o orc).obs dflt) = true := by
   have hL := newtonLoop_spec o.localOnly (maxK (o.overshoot * o.acc) o.sig)
     (fun i => norm sqrt o.useInf (scale (orc.verrIt i) orc.w))
     (fun i => norm sqrt o.useInf (scale (orc.verrBack i) orc.w)) maxItsU 0
     (normW sqrt o.useInf (scale orc.verr0 orc.w)).1 (by decide)
   simp only at hL
-  unfold runU
+  unfold runU acceptsU
   simp only
+  rw [show norm sqrt o.useInf (scale orc.verr0 orc.w) = (normW sqrt o.useInf (scale orc.verr0 orc.w)).1 from rfl]
   generalize normW sqrt o.useInf (scale orc.verr0 orc.w) = e at *
   generalize newtonLoop o.localOnly (maxK (o.overshoot * o.acc) o.sig)
     (fun i => norm sqrt o.useInf (scale (orc.verrIt i) orc.w))
@@ -311,67 +292,140 @@ theorem skeleton_accepted_U (sqrt : K → K) (o : Opts K) (orc : OracleU K) (dfl
       by_contra hc
       exact hf (by simpa using h.2 (not_lt.mp hc))
   split_ifs with h1 h2 h3 h4 h5 h6
-  · simp [acceptsU, Results.obs, h1]
-  · simp only [Bool.or_eq_true, Bool.and_eq_true, decide_eq_true_eq, beq_iff_eq, Bool.not_eq_true'] at h2
-    rcases h2 with h2 | h2
-    · have hz : (e.1 == 0) = true := by simp [h2]
-      simp [acceptsU, Results.obs, h1, hz]
-    · simp [acceptsU, Results.obs, h1, h2.1, h2.2]
+  · simp [limitOutcome, Results.obs]
+  · simp [Results.obs]
   all_goals have hc := hnewton h2
   · have hd : o.localOnly = true ∧ 2 ≤ L.its := by
       rcases hL3 with ⟨hd, _⟩ | ⟨_, _, _, h1, h2⟩
       · rw [h4] at hd; exact absurd hd (by simp)
       · exact ⟨h1, h2⟩
     rcases hc with hc | hc <;>
-      simp [acceptsU, newtonOutcome, Results.obs, h1, hits1, hits2, hd.1, hd.2, hc]
+      simp [newtonOutcome, Results.obs, hits1, hits2, hd.1, hd.2, hc]
   · have hd : o.localOnly = true ∧ 2 ≤ L.its := by
       rcases hL3 with ⟨hd, _⟩ | ⟨_, _, _, h1, h2⟩
       · rw [h4] at hd; exact absurd hd (by simp)
       · exact ⟨h1, h2⟩
-    rcases hc with hc | hc <;>
-      simp [acceptsU, newtonOutcome, Results.obs, h1, hits1, hits2, hd.1, hd.2, h3, hc]
+    have hlt : L.achieved < e.1 := by simpa using h5
+    simp [newtonOutcome, Results.obs, hits1, hits2, hd.1, hd.2, h3, le_of_lt hlt, ne_of_lt hlt]
   · rcases hc with hc | hc <;>
-      simp [acceptsU, newtonOutcome, Results.obs, h1, hits1, hits2, hc]
-  · rcases hc with hc | hc <;>
-      simp [acceptsU, newtonOutcome, Results.obs, h1, hits1, hits2, h3, hc]
-  · rcases hc with hc | hc <;>
-      simp [acceptsU, newtonOutcome, Results.obs, h1, hits1, hits2, not_lt.mp h3, hc]
+      simp [newtonOutcome, Results.obs, hits1, hits2, hc]
+  · have hlt : L.achieved < e.1 := by simpa using h6
+    simp [newtonOutcome, Results.obs, hits1, hits2, h3, le_of_lt hlt, ne_of_lt hlt]
+  · simp [newtonOutcome, Results.obs, hits1, hits2, not_lt.mp h3]
 
 /-- soundness of the contract itself: an accepted observation that says Succeeded carries an exit norm within the
-accuracy (so the correspondence check on `ProjectResults` enforces the property clause on every run) -/
-theorem accepts_sound (o : Opts K) (ob : Obs K) (h : acceptsQ o ob = true) (hs : ob.status = .succeeded) :
+accuracy and was not thrown (so the correspondence check on `ProjectResults` enforces the property clause) -/
+theorem accepts_sound (o : Opts K) (mQuats : Nat) (perrIn quatIn : K) (ob : Obs K) (hacc : 0 ≤ o.acc)
+    (h : acceptsQ o mQuats perrIn quatIn ob = true) (hs : ob.status = .succeeded) :
     ∃ n, ob.normOut = some n ∧ n ≤ o.acc ∧ ob.threw = false := by
-  unfold acceptsQ newtonOutcome at h
-  split_ifs at h with h1
-  · simp [hs] at h
-  · cases hno : ob.normOut with
-    | none => simp [hno] at h
-    | some n =>
-      refine ⟨n, rfl, ?_⟩
-      simp only [hno, hs, Bool.and_eq_true, Bool.or_eq_true, decide_eq_true_eq, beq_iff_eq, Bool.not_eq_true',
-        beq_self_eq_true, Bool.true_and, reduceCtorEq, false_and, or_false] at h
-      rcases h with ⟨_, (⟨⟨⟨⟨_, ht⟩, _⟩, hle⟩, heq⟩ | ⟨_, h⟩) | ⟨_, h⟩⟩
-      · exact ⟨by rw [heq]; exact hle, ht⟩
-      · exact h
-      · exact h
+  unfold acceptsQ at h
+  simp only at h
+  generalize hN : (if quatIn ≤ perrIn then perrIn else quatIn) = normIn at h
+  by_cases h1 : exceeds o.limit normIn = true
+  · simp [h1, limitOutcome, hs] at h
+  · simp only [h1, Bool.false_eq_true, if_false, Bool.and_eq_true, Bool.not_eq_true'] at h
+    obtain ⟨_, h⟩ := h
+    by_cases h2 : (perrIn == 0 || decide (perrIn ≤ o.acc) && !o.force) = true
+    · rw [if_pos h2] at h
+      by_cases h3 : (decide (o.acc < quatIn) || o.force) = true
+      · rw [if_pos h3] at h
+        cases hno : ob.normOut with
+        | none => simp [hno] at h
+        | some n =>
+          refine ⟨n, rfl, ?_⟩
+          simp [hno, hs] at h
+          exact h.2
+      · rw [if_neg h3] at h
+        cases hno : ob.normOut with
+        | none => simp [hno] at h
+        | some n =>
+          refine ⟨n, rfl, ?_⟩
+          simp only [hno, hs, Bool.and_eq_true, beq_iff_eq, Bool.not_eq_true', beq_self_eq_true, true_and] at h
+          simp only [Bool.or_eq_true, Bool.and_eq_true, decide_eq_true_eq, beq_iff_eq, Bool.not_eq_true', not_or, not_lt] at h2 h3
+          have hp : perrIn ≤ o.acc := by
+            rcases h2 with h2 | h2
+            · rw [h2]; exact hacc
+            · exact h2.1
+          have hn : normIn ≤ o.acc := by
+            rw [← hN]; split
+            · exact hp
+            · exact h3.1
+          exact ⟨by rw [h.2]; exact hn, h.1.1.2⟩
+    · rw [if_neg h2] at h
+      unfold newtonOutcome at h
+      cases hno : ob.normOut with
+      | none => simp [hno] at h
+      | some n =>
+        refine ⟨n, rfl, ?_⟩
+        simp [hno, hs] at h
+        exact h.2
 
-/-- the same for the projectU contract (the `normIn = 0` early exit needs `0 ≤ acc`) -/
-theorem accepts_sound_U (o : Opts K) (ob : Obs K) (hacc : 0 ≤ o.acc) (h : acceptsU o ob = true)
+/-- the same for the projectU contract -/
+theorem accepts_sound_U (o : Opts K) (verrIn : K) (ob : Obs K) (hacc : 0 ≤ o.acc) (h : acceptsU o verrIn ob = true)
     (hs : ob.status = .succeeded) :
     ∃ n, ob.normOut = some n ∧ n ≤ o.acc ∧ ob.threw = false := by
-  unfold acceptsU newtonOutcome at h
-  split_ifs at h with h1
-  · simp [hs] at h
-  · cases hno : ob.normOut with
-    | none => simp [hno] at h
-    | some n =>
-      refine ⟨n, rfl, ?_⟩
-      simp only [hno, hs, Bool.and_eq_true, Bool.or_eq_true, decide_eq_true_eq, beq_iff_eq, Bool.not_eq_true',
-        beq_self_eq_true, Bool.true_and, reduceCtorEq, false_and, or_false] at h
-      rcases h with ⟨_, ⟨⟨⟨_, ht⟩, heq⟩, hle | hz⟩ | ⟨_, h⟩⟩
-      · exact ⟨by rw [heq]; exact hle.2, ht⟩
-      · exact ⟨by rw [heq, hz]; exact hacc, ht⟩
-      · exact h
+  unfold acceptsU at h
+  by_cases h1 : exceeds o.limit verrIn = true
+  · simp [h1, limitOutcome, hs] at h
+  · simp only [h1, Bool.false_eq_true, if_false, Bool.and_eq_true, Bool.not_eq_true'] at h
+    obtain ⟨_, h⟩ := h
+    by_cases h2 : (verrIn == 0 || decide (verrIn ≤ o.acc) && !o.force) = true
+    · rw [if_pos h2] at h
+      cases hno : ob.normOut with
+      | none => simp [hno] at h
+      | some n =>
+        refine ⟨n, rfl, ?_⟩
+        simp only [hno, hs, Bool.and_eq_true, beq_iff_eq, Bool.not_eq_true', beq_self_eq_true, true_and] at h
+        simp only [Bool.or_eq_true, Bool.and_eq_true, decide_eq_true_eq, beq_iff_eq, Bool.not_eq_true'] at h2
+        have hp : verrIn ≤ o.acc := by
+          rcases h2 with h2 | h2
+          · rw [h2]; exact hacc
+          · exact h2.1
+        exact ⟨by rw [h.2]; exact hp, h.1.1.2⟩
+    · rw [if_neg h2] at h
+      unfold newtonOutcome at h
+      cases hno : ob.normOut with
+      | none => simp [hno] at h
+      | some n =>
+        refine ⟨n, rfl, ?_⟩
+        simp [hno, hs] at h
+        exact h.2
+
+/-- with the options `System::project(state, accuracy)` uses (no projection limit, no DontThrow) a call that does not
+throw has succeeded — this is why "returned normally" is read as "success reported" for `System::project` -/
+theorem no_throw_is_success (sqrt : K → K) (o : Opts K) (orc : OracleQ K) (hl : o.limit = none) (hd : o.dontThrow = false)
+    (h : (runQ sqrt o orc).threw = false) : (runQ sqrt o orc).status = .succeeded := by
+  revert h
+  unfold runQ
+  simp only [hl, hd, exceeds]
+  split_ifs <;> simp_all
+
+theorem no_throw_is_success_U (sqrt : K → K) (o : Opts K) (orc : OracleU K) (hl : o.limit = none) (hd : o.dontThrow = false)
+    (h : (runU sqrt o orc).threw = false) : (runU sqrt o orc).status = .succeeded := by
+  revert h
+  unfold runU
+  simp only [hl, hd, exceeds]
+  split_ifs <;> simp_all
+
+/-- the options `ProjectOptions(accuracy)` builds satisfy the hypotheses of `no_throw_is_success` and of
+`success_sound` -/
+theorem defaultOpts_spec (dfltAcc ov sig acc : K) (hd : 0 < dfltAcc) :
+    (defaultOpts dfltAcc ov sig acc).limit = none ∧ (defaultOpts dfltAcc ov sig acc).dontThrow = false ∧
+    (defaultOpts dfltAcc ov sig acc).force = false ∧ 0 < (defaultOpts dfltAcc ov sig acc).acc := by
+  refine ⟨rfl, rfl, rfl, ?_⟩
+  show 0 < setRequiredAccuracy dfltAcc acc
+  unfold setRequiredAccuracy; split <;> assumption
+
+/-- `normalizeQuaternions` skips prescribed quaternions: entries flagged `false` come back unchanged, entries flagged
+`true` come back normalised, order and flags preserved -/
+theorem normalizeQuatsMasked_spec (sqrt : K → K) (qs : List (Bool × Quat K)) (i : Nat) (hi : i < qs.length) :
+    ((normalizeQuatsMasked sqrt qs)[i]?).map Prod.fst = some qs[i].1 ∧
+    (qs[i].1 = false → (normalizeQuatsMasked sqrt qs)[i]? = some qs[i]) ∧
+    (qs[i].1 = true → (normalizeQuatsMasked sqrt qs)[i]? = some (true, normalizeQuat sqrt qs[i].2)) := by
+  unfold normalizeQuatsMasked
+  rw [List.getElem?_map, List.getElem?_eq_getElem hi]
+  simp only [Option.map_some]
+  cases hq : qs[i].1 <;> simp [hq]
 
 /-! ### quaternion normalisation -/
 
@@ -417,8 +471,35 @@ example : unpack [0, 2, 4] [(10 : ℚ), 20, 30] [1, 2, 3, 4, 5] = [10, 2, 20, 4,
 
 open Matrix
 
+/-- every entry of projectU's relative scale is positive when the u weights are -/
+theorem uRelScale_pos (u wu : List K) (hw : ∀ x ∈ wu, 0 < x) : ∀ x ∈ uRelScale u wu, 0 < x := by
+  unfold uRelScale
+  induction u generalizing wu with
+  | nil => intro x hx; simp at hx
+  | cons a t ih =>
+    cases wu with
+    | nil => intro x hx; simp at hx
+    | cons b s =>
+      intro x hx
+      simp only [List.zipWith_cons_cons, List.mem_cons] at hx
+      have hb : 0 < b := hw b (by simp)
+      rcases hx with hx | hx
+      · rw [hx]
+        split_ifs with h1 h2 h2
+        · -- 1 < -a * b
+          by_contra hc
+          have : -a * b ≤ 0 := mul_nonpos_of_nonpos_of_nonneg (not_lt.mp hc) (le_of_lt hb)
+          linarith
+        · exact one_div_pos.mpr hb
+        · by_contra hc
+          have : a * b ≤ 0 := mul_nonpos_of_nonpos_of_nonneg (not_lt.mp hc) (le_of_lt hb)
+          linarith
+        · exact one_div_pos.mpr hb
+      · exact ih s (fun y hy => hw y (by simp [hy])) x hx
+
+
 section MinNorm
-variable {m n : Type} [Fintype m] [Fintype n] [DecidableEq m] [DecidableEq n]
+variable {m n p : Type} [Fintype m] [Fintype n] [Fintype p] [DecidableEq m] [DecidableEq n] [DecidableEq p]
 
 /-- **min_norm_of_multiplier** (certificate form; no invertibility needed).  Let `d j > 0` be the squared weights
 (`d = Wu²`).  If the multipliers `lam` solve `(A D⁻¹ Aᵀ) lam = b`, then `x = D⁻¹ Aᵀ lam` solves `A x = b` and has the
@@ -529,6 +610,57 @@ theorem min_norm_documented_step (A : Matrix m n K) (t : m → K) (ht : ∀ i, t
   simp only [hdqj] at this
   simpa [mul_pow] using this
 
+/-- **min_norm_step_general** — the position step with the coupling matrix `N`: for ANY matrix `S`
+(the code's `S = Wq⁺ = N Wu⁻¹ N⁺` with the prescribed columns removed), `A' = Tp A S`, `μ` with `(A'A'ᵀ) μ = Tp b`:
+the weighted unknown `z = A'ᵀ μ` (`dfq_WLS`) solves `(A S) z = b` with the smallest Euclidean norm among all such `z`,
+and the correction `dq = S z` satisfies `A dq = b`.  (When `S` is invertible this says: `dq` minimises `‖S⁻¹ dq‖`,
+i.e. the documented `Wq`-weighted norm; the tolerances `Tp` cancel.) -/
+theorem min_norm_step_general (A : Matrix m n K) (S : Matrix n p K) (t : m → K) (ht : ∀ i, t i ≠ 0) (b mu : m → K)
+    (hmu : ((Matrix.diagonal t * (A * S)) * (Matrix.diagonal t * (A * S))ᵀ) *ᵥ mu = fun i => t i * b i) :
+    let z : p → K := (Matrix.diagonal t * (A * S))ᵀ *ᵥ mu
+    (A * S) *ᵥ z = b ∧ A *ᵥ (S *ᵥ z) = b ∧ ∀ y : p → K, (A * S) *ᵥ y = b → z ⬝ᵥ z ≤ y ⬝ᵥ y := by
+  intro z
+  set B := A * S with hB
+  set lam : m → K := Matrix.diagonal t *ᵥ mu with hlam
+  have hz : z = Bᵀ *ᵥ lam := by
+    show (Matrix.diagonal t * B)ᵀ *ᵥ mu = _
+    rw [Matrix.transpose_mul, Matrix.diagonal_transpose, ← Matrix.mulVec_mulVec]
+  have hBB : (B * Bᵀ) *ᵥ lam = b := by
+    have h1 : (Matrix.diagonal t * B) * (Matrix.diagonal t * B)ᵀ = Matrix.diagonal t * (B * Bᵀ) * Matrix.diagonal t := by
+      rw [Matrix.transpose_mul, Matrix.diagonal_transpose]; simp only [Matrix.mul_assoc]
+    rw [h1, ← Matrix.mulVec_mulVec, ← Matrix.mulVec_mulVec, ← hlam] at hmu
+    funext i
+    have := congrFun hmu i
+    rw [Matrix.mulVec_diagonal] at this
+    exact mul_left_cancel₀ (ht i) this
+  have h1 : Matrix.diagonal (fun _ : p => ((1 : K))⁻¹) = 1 := by simp
+  have hm := min_norm_of_multiplier B (fun _ => (1 : K)) (fun _ => one_pos) b lam
+    (by rw [h1, Matrix.mul_one]; exact hBB)
+  simp only [inv_one, one_mul] at hm
+  have hBz : B *ᵥ z = b := by rw [hz]; exact hm.1
+  refine ⟨hBz, by rw [Matrix.mulVec_mulVec]; exact hBz, fun y hy => ?_⟩
+  have := hm.2 y hy
+  rw [hz]
+  simpa [dotProduct, pow_two] using this
+
+/-- **min_norm_relative_scaling** — the velocity step: with the relative scale `E_j > 0` (`uRelScale`, see
+`uRelScale_pos`), `A' = Tpv [P;V] E`, `(A'A'ᵀ) μ = Tpv verr`, the correction `du = E A'ᵀ μ` solves `[P;V] du = verr` and
+minimises `Σ (du_j / E_j)²` — the norm projectU actually minimises (NOT the `Wu`-weighted one when `|u_j| Wu_j > 1`). -/
+theorem min_norm_relative_scaling (A : Matrix m n K) (t : m → K) (ht : ∀ i, t i ≠ 0) (E : n → K) (hE : ∀ j, 0 < E j)
+    (b mu : m → K)
+    (hmu : ((Matrix.diagonal t * A * Matrix.diagonal E) * (Matrix.diagonal t * A * Matrix.diagonal E)ᵀ) *ᵥ mu
+             = fun i => t i * b i) :
+    let du : n → K := fun j => E j * ((Matrix.diagonal t * A * Matrix.diagonal E)ᵀ *ᵥ mu) j
+    A *ᵥ du = b ∧ ∀ y : n → K, A *ᵥ y = b → ∑ j, (du j / E j) ^ 2 ≤ ∑ j, (y j / E j) ^ 2 := by
+  intro du
+  have hinv : (fun j => ((E j)⁻¹)⁻¹) = E := by funext j; simp
+  have h := min_norm_documented_step A t ht (fun j => (E j)⁻¹) (fun j => inv_pos.mpr (hE j)) b mu
+    (by simpa [hinv] using hmu)
+  simp only [hinv, inv_inv] at h
+  refine ⟨h.1, fun y hy => ?_⟩
+  have := h.2 y hy
+  simpa [div_eq_inv_mul] using this
+
 end MinNorm
 
 /-! ### non-vacuity of the skeleton theorems (K = ℚ, infinity norm so that `sqrt` is irrelevant) -/
@@ -548,9 +680,13 @@ example : exOpts.force = false ∧
     (entryNormQ id exOpts.useInf exOracleOk.perr0 exOracleOk.w exOracleOk.quat0).normIn ≤ exOpts.acc := by
   norm_num [exOpts, exOracleOk, exOracle, entryNormQ, normW, normInfW, absK, scale]
 /-- the contract rejects `Succeeded` with an exit norm above the accuracy -/
-example : acceptsQ exOpts ⟨.succeeded, true, false, 2, 100, some 50, false⟩ = false := by decide
+example : acceptsQ exOpts 1 100 50 ⟨.succeeded, true, false, 2, 100, some 50, false, false⟩ = false := by decide
 /-- … and accepts a failing run as a failing run -/
-example : acceptsQ exOpts ⟨.failedAcc, true, false, 20, 100, some 100, false⟩ = true := by decide
+example : acceptsQ exOpts 1 100 50 ⟨.failedAcc, true, false, 20, 100, some 100, false, true⟩ = true := by decide
+/-- a FORCED projection reported as "nothing done" is rejected (ForceProjection must iterate) -/
+example : acceptsQ { exOpts with force := true } 0 5 0 ⟨.succeeded, false, false, 0, 5, some 5, false, true⟩ = false := by decide
+/-- a failure whose exit norm equals the entry norm must have restored the entry state (no quaternions) -/
+example : acceptsQ exOpts 0 100 0 ⟨.failedAcc, true, false, 20, 100, some 100, false, false⟩ = false := by decide
 
 /-- `min_norm_linear` is not vacuous: the single constraint `y₀ + y₁ = 2` (A Aᵀ = (2) is invertible) -/
 example : IsUnit ((!![1, 1] : Matrix (Fin 1) (Fin 2) ℚ) * (!![1, 1] : Matrix (Fin 1) (Fin 2) ℚ)ᵀ).det := by
